@@ -174,11 +174,13 @@ Proof. reflexivity. Qed.
 (* For every history whose operations go through either of two handles that one caching provider handed out
    for the app, and whose writes may fail after the storage applied nothing, all, or (a batch) the first k
    items of them, every output equals the output of the uncached storage under the same fault plan (except
-   dont_care); K_inj as above.  Stated about the step function with the four flags read from the source. *)
+   dont_care); K_inj as above; no operation bypasses the cache (FRaw: the history starts with the cache, over an
+   empty storage - see cold_cache_over_ttl_row_refuted).  Stated about the step function with the flags read
+   from the source. *)
 Theorem cache_transparent_failed_writes_and_handles :
   forall (K : bytes * bytes -> Prop),
   (forall k1 k2, K k1 -> K k2 -> make_key (fst k1) (snd k1) = make_key (fst k2) (snd k2) -> k1 = k2) ->
-  forall xs, Forall (fun x => op_domain K (snd x)) xs ->
+  forall xs, Forall (fun x => op_domain K (snd x) /\ snd (fst x) <> FRaw) xs ->
   transparent_xrun cache_provider_one_per_app cache_big_values_marked cache_key_guard cache_expired_leaves_marker
                    cache_write_error_marks
                    (mkX ([], 0%Z) [] [] 0%Z) xs.
@@ -216,6 +218,20 @@ Proof.
   vm_compute. reflexivity.
 Qed.
 
+(* What remains of finding F23 (recorded): a cache that starts cold over a storage already holding a row with a
+   TTL (FRaw: written by an earlier run of the process).  A plain Get finds the row and caches it - the interface
+   does not tell it the expiry; after the expiry the cache keeps serving it, to Get and to TTLGet. *)
+Example cold_cache_over_ttl_row_refuted :
+  exists xs, list_eqb sout_eqb
+               (xrun spec_step cache_provider_one_per_app cache_big_values_marked cache_key_guard
+                     cache_expired_leaves_marker cache_write_error_marks (mkX ([], 0%Z) [] [] 0%Z) xs)
+               (under_frun spec_step ([], 0%Z) (map xfop xs)) = false.
+Proof.
+  exists [(false, FRaw, OIns [97%N; 97%N] [1%N] [7%N] 1%Z); (false, FNone, OGet [97%N; 97%N] [1%N]);
+          (false, FNone, OAdvance 2000%Z); (false, FNone, OTTLGet [97%N; 97%N] [1%N])].
+  vm_compute. reflexivity.
+Qed.
+
 Example failed_writes_and_handles_nonvacuous :
   let K := fun k : bytes * bytes => fst k = [97%N; 97%N] in
   let xs := [(false, FNone, OGet [97%N; 97%N] [1%N]); (true, FNone, OPut [97%N; 97%N] [1%N] [5%N]);
@@ -227,7 +243,7 @@ Example failed_writes_and_handles_nonvacuous :
              (false, FNone, OGetBatch [97%N; 97%N] [[1%N]; [2%N]]);
              (false, FErrAfter, OIns [97%N; 97%N] [3%N] [7%N] 0%Z); (true, FNone, OGet [97%N; 97%N] [3%N]);
              (false, FErrAfter, OCad [97%N; 97%N] [3%N] [7%N]); (true, FNone, OGet [97%N; 97%N] [3%N])] in
-  Forall (fun x => op_domain K (snd x)) xs /\
+  Forall (fun x => op_domain K (snd x) /\ snd (fst x) <> FRaw) xs /\
   (forall k1 k2, K k1 -> K k2 -> make_key (fst k1) (snd k1) = make_key (fst k2) (snd k2) -> k1 = k2) /\
   xrun spec_step cache_provider_one_per_app cache_big_values_marked cache_key_guard cache_expired_leaves_marker
        cache_write_error_marks
@@ -237,7 +253,7 @@ Example failed_writes_and_handles_nonvacuous :
      RBatch [Some [1%N]; Some [0%N]]; RErr; RGet (Some [7%N]); RErr; RGet None].
 Proof.
   cbn zeta. split; [|split; [|split]].
-  - repeat constructor; cbn; try reflexivity; try lia.
+  - repeat constructor; cbn; try reflexivity; try lia; try discriminate.
   - intros [p1 c1] [p2 c2] H1 H2 E. cbn in *. subst. unfold make_key in E. apply app_inv_head in E. congruence.
   - vm_compute. reflexivity.
   - vm_compute. reflexivity.
